@@ -139,13 +139,17 @@ def _self_validate(ctx, prop):
                 seeds_ok += 1
     # behaviour-preserving refactorings (independent authors): this property's
     # check must stay silent on every one of them
-    from selftest.refactors import run_one as run_refac, corpus_dirs
+    from selftest.refactors import run_one as run_refac, corpus_dirs, load_open
     rdirs = corpus_dirs()
+    open_ = load_open()
+    n_open = 0
     refac_ok = 0
     with ProcessPoolExecutor(max_workers=min(16, os.cpu_count() or 4)) as ex:
         for name, res, msg in ex.map(run_refac, [(d, [prop]) for d in rdirs]):
             if res is None:
                 skipped += 1
+            elif res and (name, prop) in open_:
+                n_open += 1
             elif res:
                 bad.append(f"refactoring {name}: exit {res[0][1]} "
                            f"({'false alarm' if res[0][1] == 1 else 'analysis error'})")
@@ -155,6 +159,7 @@ def _self_validate(ctx, prop):
         "variants": len(todo), "firing_detected": fired, "silent_quiet": silent,
         "seeded_changes_reported": seeds_ok,
         "refactorings_silent": refac_ok,
+        "refactorings_open_checker_weaknesses": n_open,
         "inapplicable": skipped, "failed": bad}
     if bad:
         raise AnalysisError("checker self-validation failed (the checker, not "
